@@ -180,7 +180,7 @@ func init() {
 					others = true
 				}
 			}
-			if !others {
+			if !others && !c.m.fireNextTimer() {
 				for _, t := range c.m.threads {
 					if t != c.t {
 						c.t.clock = vcJoin(c.t.clock, t.clock)
@@ -191,7 +191,24 @@ func init() {
 			}
 			c.m.block(c.t, &waitRec{kind: "quiesce", what: "verifWaitQuiescent", ins: c.ins})
 		},
-		"verifSettle": func(c *stubCtx) { stubTable["verifWaitQuiescent"](c) },
+		"verifSettle": func(c *stubCtx) {
+			if w := c.t.Wait; w != nil && w.kind == "quiesce" && w.done {
+				c.t.Wait = nil
+				c.ret(nil)
+				return
+			}
+			others := false
+			for _, t := range c.m.threads {
+				if t != c.t && c.m.enabled(t) {
+					others = true
+				}
+			}
+			if !others {
+				c.ret(nil)
+				return
+			}
+			c.m.block(c.t, &waitRec{kind: "quiesce", what: "verifSettle", ins: c.ins})
+		},
 		"verifBlocked": func(c *stubCtx) {
 			n := 0
 			for _, t := range c.m.threads {
